@@ -66,6 +66,9 @@ def _mk_devices(kind: str, beh: dict):
         devs.append(("StandardIO", std_mod.StandardIO(True), (std_mod, fake_in, fake_out)))
         devs.append(("StandardIO-quiet", std_mod.StandardIO(False),
                      (std_mod, io.TextIOWrapper(io.BytesIO(data), encoding="latin-1", newline=""), io.StringIO())))
+        # the stdin a process really has in a UTF-8 / POSIX locale (python's defaults: utf-8, surrogateescape, newline="\n")
+        devs.append(("StandardIO-utf8-stdin", std_mod.StandardIO(False),
+                     (std_mod, io.TextIOWrapper(io.BytesIO(data), encoding="utf-8", errors="surrogateescape", newline="\n"), io.StringIO())))
     else:
         ev = [KeyEvent(t, bool(d), k) for t, d, k in beh["script"]]
         devs.append(("KeyboardIO", KeyboardIO(ScriptedKeyEventSource(list(ev))), None))
@@ -133,7 +136,8 @@ def run(chk: Check, replay=None):
     quick = chk.tier == "quick"
     so = None
     chk.assumptions += [
-        "StandardIO is driven through a latin-1 text wrapper (its byte mapping is defined on code points 0-255)",
+        "StandardIO is driven through a latin-1 text wrapper (its byte mapping is defined on code points 0-255), and - input only - through "
+        "the utf-8 / surrogateescape text layer a process has by default",
         "call sequences are bounded in length; the invariants are stated for every prefix",
     ]
     inputs = [[], [0xA5], [0x01, 0x80], [0xFF, 0x00], [0x5A, 0xC3, 0x7E]]
@@ -163,10 +167,13 @@ def run(chk: Check, replay=None):
     chk.traces += len(behs)
     chk.exhaustive = True
     chk.extra["behaviours_replayed"] = len(behs)
-    chk.extra["devices"] = ["FixedIO", "StandardIO(verbose)", "StandardIO(quiet)", "KeyboardIO", "KeyboardIO.from_text"]
+    chk.extra["devices"] = ["FixedIO", "StandardIO(verbose)", "StandardIO(quiet)", "StandardIO(quiet, utf-8 stdin)", "KeyboardIO", "KeyboardIO.from_text"]
     chk.sample(behs[0])
     chk.sample(behs[-1])
     for bl in bad_lists:
         for b in bl:
-            chk.violation({"device": b["device"], "call": b["call"]},
+            key = {"device": b["device"], "call": b["call"]}
+            if b["device"] == "StandardIO-utf8-stdin":
+                key["input_class"] = "has-byte-above-0x7f" if any(x >= 0x80 for x in b["behaviour"].get("input", [])) else "ascii"
+            chk.violation(key,
                           f"{b['device']}: call #{b.get('call_index')} {b['call']} returned {b['got']} but the specification says {b['expected']}", b)
